@@ -390,6 +390,14 @@ func init() {
 		ip.schedPoint("EnvTicks")
 		return nil
 	}
+	// EnvTicksEach(n): time passes - every timer (each ticker, each time.After) may fire n times
+	V["EnvTicksEach"] = func(ip *Interp, fn *ssa.Function, args []Value) Value {
+		ip.conc.envEpoch++
+		ip.conc.envEach = int(termArg(args[0]).bv)
+		ip.syncRelease(ip.conc)
+		ip.schedPoint("EnvTicksEach")
+		return nil
+	}
 	V["MapOrderAll"] = func(ip *Interp, fn *ssa.Function, args []Value) Value {
 		ip.opt.MapOrderAll = termArg(args[0]).Bool()
 		return nil
